@@ -6,6 +6,7 @@ CONSTANTS
   TrigSets = {{},{3},{2,3}}
   MaxNow = 2
   MaxStores = 3
+  Shared = FALSE
 CONSTRAINT Bounded
 INVARIANTS NeverStale LiveIsFound HeldNotDead NoLimitKeepsAll
 
